@@ -34,6 +34,8 @@ HARNESSES += [H(f"c09_decode_text_k{k:02d}", functions=["de::AmpersandSeparated:
                 clauses=["`k=v&k=v` decodes, pair by pair, to the RFC 3986 percent-decoding of its `&`/`=`-separated parts (or an error exactly when a part does not decode to UTF-8); nothing after the last pair"],
                 bound=f"two pairs, 1-byte keys, values of {l} symbolic bytes (any byte except & and =)", **B) for k, l in enumerate([(1, 1), (3, 0), (0, 3), (2, 2)])]
 HARNESSES += [
+    H("c09_seq_bools_concrete", functions=[S + "serialize_tuple", "SerializeTuple::serialize_element", D + "deserialize_tuple", "de::CommaSeparated::next_element_seed", D + "deserialize_bool"],
+      clauses=["(true, false) and (false, false, true) decode back to equal values"], bound="2 CONCRETE sequences", expect_covers=False, **B),
     H("c09_seq_strings_concrete", functions=[S + "serialize_tuple", "SerializeTuple::serialize_element", D + "deserialize_tuple", "de::CommaSeparated::next_element_seed"],
       clauses=["three concrete pairs of strings containing `,` `&` `=` `%` decode back to the same pairs"], bound="3 CONCRETE pairs", expect_covers=False, **B),
     H("c09_seq_empty_first_element", functions=["SerializeTuple::serialize_element"], clauses=["(\"\", \"x\") decodes back to (\"\", \"x\")"], bound="ONE concrete pair: the failing input class of KF-C09-empty-first-seq-element",
@@ -41,7 +43,7 @@ HARNESSES += [
 ]
 # written but NOT registered (measured: 8-32 GB or no answer in 15 min each; kept in harness/C09 for reference): the symbolic full-domain char, the derived unit enum (+Option),
 # symbolic strings of 1-2 bytes, symbolic string pairs, and the `k=v&k=v` text harnesses
-UNREGISTERED = ("c09_roundtrip_char", "c09_roundtrip_unit_enum", "c09_roundtrip_option_unit_enum", "c09_roundtrip_string_k01", "c09_roundtrip_string_k02")
+UNREGISTERED = ("c09_roundtrip_pair_bool", "c09_roundtrip_triple_bool", "c09_roundtrip_char", "c09_roundtrip_unit_enum", "c09_roundtrip_option_unit_enum", "c09_roundtrip_string_k01", "c09_roundtrip_string_k02")
 HARNESSES = [h for h in HARNESSES if h.name not in UNREGISTERED and not h.name.startswith(("c09_roundtrip_string_pair", "c09_decode_text"))]
 JOBS = 6
 TRUSTED = ["ASSUMED CONTRACTS: percent-encoding crate (spec/percent.rs decoder + reference NON_ALPHANUMERIC encoder in harness/C09), core::str::from_utf8 (spec/utf8.rs); alloc::fmt::format stubbed",
